@@ -1,4 +1,7 @@
-import AdaptiveProofs.Lemmas.Seq
+import AdaptiveProofs.AuditTool
 import AdaptiveProofs.Props.C05
 import AdaptiveProofs.Props.C06
+import AdaptiveProofs.Props.C14
+import AdaptiveProofs.Props.C17
+import AdaptiveProofs.Props.C18
 import AdaptiveProofs.Props.C19
